@@ -34,13 +34,18 @@ def gen_case(seed, k, mode):
     return case
 
 
+def mixed_alpha(case):
+    alphas = {str(n.get("alpha", Fr(1))) for n in case["kb"]["nodes"]}
+    return len(alphas) > 1
+
+
 def oracle(rec):
     vs = rec["meta"]["variants"]
     if rec["safe_upto"] < len(rec["lines"]):
         return None          # some value left the exactly representable range: not judged
     contras = {v["contra"] for v in vs}
     if len(contras) > 1:
-        return {"problem": "whether a contradiction is found depends on the order",
+        return {"problem": "whether a contradiction is found depends on the order", "mixed_alpha": mixed_alpha(rec["prog"]),
                 "variants": [(v["kind"], v["roots"], v["contra"]) for v in vs]}
     if vs[0]["contra"] == "c 0":
         finals = {v["final"] for v in vs}
@@ -50,6 +55,20 @@ def oracle(rec):
 
 
 def run(rep, tier, seed):
+    # known finding D16 (mixed alpha): replay its witness; it is suppressed only while the witness still fails
+    import json, os
+    from common import VERIF
+    wcase = streams.fix_prog(json.load(open(os.path.join(VERIF, "corpus/C07/known_d16_mixed_alpha.json")))["case"])
+    if "data" in wcase:
+        wcase["data"] = [tuple(d) for d in wcase["data"]]
+    wrec = engine.run_cases("prop", "run_c07", [wcase], jobs=1)[0]
+    if "crash" not in wrec:
+        wrec["prog"] = wcase
+        wrec["safe_upto"] = len(wrec["lines"])
+        wbad = oracle(wrec)
+        rep.extra["known_finding_D16_witness_reproduces"] = bool(wbad)
+        if wbad and wbad.get("mixed_alpha"):
+            rep.enable_known("D16")
     n = 120 if tier == "quick" else 2500
     cases = [gen_case(seed, k, "interp") for k in range(n // 2)] + [gen_case(seed, k + 10 ** 6, "given") for k in range(n - n // 2)]
     recs = engine.run_cases("prop", "run_c07", cases, chunksize=2)
